@@ -520,6 +520,8 @@ def configs(tier):
     for cls in ('LRI', 'LRU'):
         for ms in sizes:
             for om in (False, True):
+                if ms >= 4 and om:
+                    continue      # on_miss values multiply the max_size=4 space beyond a 10-minute search
                 out.append((cls, ms, om))
     return out
 
@@ -529,8 +531,8 @@ def run(ctx):
     for cls, ms, om in configs(ctx.tier):
         # quick: the max_size=3 searches use one value (values only multiply the state space: no code path depends on
         # them except the identity shortcuts, for which 0 is kept); thorough: both values everywhere
-        spec = Spec(cls, ms, om, values=(0,) if ctx.quick() and ms >= 3 else VALUES)
-        res = histories.explore(spec, ctx)
+        spec = Spec(cls, ms, om, values=(0,) if (ctx.quick() and ms >= 3) or ms >= 4 else VALUES)
+        res = histories.explore(spec, ctx, time_budget=None if ctx.quick() else 900)
         parts.append((spec.config, res))
         ctx.note('%s max_size=%d on_miss=%s: states=%d transitions=%d depth=%d fixpoint=%s'
                  % (cls, ms, om, res.states, res.transitions, res.depth, res.fixpoint))
